@@ -96,7 +96,7 @@ class CaptureClient:
 
 
 def lineage_scenario(planted=None, max_ticks=2):
-    STAGES = [('pre-init', None), ('setup', None), ('process', 1), ('process', 2), ('shutdown', None), (None, None)]
+    STAGES = [('pre-init', None), ('mq', None), ('init', None), ('setup', None), ('process', 1), ('process', 2), ('shutdown', None), (None, None)]
     def scenario(e):
         global BATON
         fresh_world(); VCLOCK.s = T0
@@ -104,6 +104,7 @@ def lineage_scenario(planted=None, max_ticks=2):
         stage, k = STAGES[e.choice('stage', len(STAGES))]
         action = ['exit', 'exc', 'stop'][e.choice('action', 3)] if stage is not None else ['oob-clean-up', 'oob-error-up', 'ext-stop'][e.choice('action', 3)]
         if action == 'stop' and stage == 'shutdown': raise PathAbort
+        if stage == 'mq' and action != 'exc': raise PathAbort          # the message queue cannot be set up (bad option, address in use): the base Filter.init() raises half-way
         plan = (stage, k, action) if stage is not None else None
         calls = []
         TF = make_filter_class(plan, calls)
@@ -133,6 +134,11 @@ def lineage_scenario(planted=None, max_ticks=2):
             return ready[0] if ready else None
         World.oracle = oracle
         raised = None
+        real_MQ = FM.MQ
+        if stage == 'mq':
+            class FailingMQ(real_MQ):
+                def __init__(self, *a, **k): raise c08.Injected('injected in MQ()')
+            FM.MQ = FailingMQ
         try:
             try:
                 TF.run(cfg, stop_evt=stop_evt, sig_stop=False)
@@ -142,6 +148,7 @@ def lineage_scenario(planted=None, max_ticks=2):
             except BaseException as ex: raised = ex
             BATON.drain()
         finally:
+            FM.MQ = real_MQ
             BATON.kill()
             if saved_env is not None: os.environ['OPENLINEAGE_DISABLED'] = saved_env
         ev = [t for t, _ in client.events]; ids = {r for _, r in client.events}
@@ -176,7 +183,7 @@ def harnesses(tier):
     stubs = ['capturing OpenLineage client', 'lineage.threading -> baton threads (the heartbeat thread runs only at symbolically chosen points)', 'fakezmq', 'per-frame metadata thread disabled']
     assume = ['heartbeat wake-ups limited to 2 (quick) / 3 (thorough) per run besides the final one', 'stop-event endings are not judged clean or error (either terminal event accepted)']
     return [Harness('c18.history', lineage_scenario(max_ticks=2 if q else 3), twin=lineage_scenario(planted=True),
-                    bounds={'endings': 'exit() / exception / stop event at init, setup, process#1, process#2, shutdown; obeyed clean / error exit message; external stop',
+                    bounds={'endings': 'exit() / exception / stop event before init, after init, at setup, process#1, process#2, shutdown; failure inside the base init (message queue cannot be set up); obeyed clean / error exit message; external stop',
                             'heartbeat wake-ups': '0-2 at symbolic points' if q else '0-3', 'frames': 3},
                     functions=fn, stubs=stubs, assumptions=assume, budget_s=900)]
 
